@@ -16,6 +16,7 @@ func init() {
 }
 
 func runC17(c *rules.Ctx) {
+	epochGenesisRules(c)
 	// ---- applyFunc: cache-context containment ------------------------------------------------------
 	const AF = "osmoutils.applyFunc"
 	c.CallArgN(AF, "dyn[0=f]", 1, "sdk.Context.CacheContext(ctx)#0", "the subscriber function runs on the cache context, never on the outer context", 1, "")
